@@ -14,6 +14,7 @@ from xdsl.rewriter import InsertPoint
 from snaxc.dialects import accfg
 from snaxc.inference.helpers import iter_ops_range, previous_ops_of
 from snaxc.inference.scoped_setups import get_scoped_setup_inputs
+from snaxc.inference.trace_acc_state import infer_state_of
 
 
 class BlockLevelSetupAwaitOverlapPattern(RewritePattern):
@@ -156,6 +157,13 @@ class LoopLevelSetupAwaitOverlapPattern(RewritePattern):
 
         # also, if there is another launch between us and the loop start, abort
         if any(isinstance(prev_op, accfg.LaunchOp) for prev_op in previous_ops_of(op)):
+            return
+
+        # the copy of the setup at the end of the loop body also runs after the last iteration (and the copy before
+        # the loop runs even if the loop body never does). It must therefore not overwrite a field that is known to
+        # be set after the loop, as later (deduplicated) setups may rely on that value.
+        state_after_loop = infer_state_of(for_op.results[iter_arg_idx])
+        if any(name in state_after_loop for name, _ in op.iter_params()):
             return
 
         # 1. We grab the first setup op inside the loop, with all dependencies
